@@ -22,6 +22,9 @@ theorem wf_mkIndex (l i : Expr) (hl : wf l = true) (hi : wf i = true) : wf (mkIn
   next a idx =>
     exact wfList_append idx i hl.1.1.2 hi
 
+theorem wf_mkPath (l : Expr) (s : String) (hl : wf l = true) : wf (mkPath l s) = true := by
+  cases l <;> simp_all [mkPath, wf, isPathE]
+
 theorem isAtomTok_lit (k : LitKind) (s : String) (h : ¬ k.isNum = true) :
     isAtomTok (.lit k s) = true := by
   cases k <;> simp_all [isAtomTok, LitKind.isNum]
@@ -72,7 +75,7 @@ theorem wfAll_succ (f : Nat) (ih : WfAll f) : WfAll (f + 1) := by
          obtain ⟨rfl, rfl⟩ := h
          assumption)
       | (apply ihL _ _ _ _ _ _ _ h
-         grind [wf, wfList, wf_mkIndex])
+         grind [wf, wfList, wf_mkIndex, wf_mkPath])
       | skip
   · -- parseArgs
     intro c ts es r h
